@@ -184,10 +184,11 @@ const (
 	c14EventMsgp
 	c14PeerBatch
 	c14OTLP
+	c14OTLPGRPC
 )
 
 func (p c14Path) String() string {
-	return [...]string{"batch-msgpack", "batch-json", "event-json", "event-msgpack", "via-peer-batch", "otlp-http"}[p]
+	return [...]string{"batch-msgpack", "batch-json", "event-json", "event-msgpack", "via-peer-batch", "otlp-http", "otlp-grpc"}[p]
 }
 
 func (p c14Path) memoizesSelectedFields() bool {
@@ -195,6 +196,10 @@ func (p c14Path) memoizesSelectedFields() bool {
 }
 
 type c14Witness struct {
+	SendKey    string         `json:"send_key,omitempty"`
+	SendMode   string         `json:"send_key_mode,omitempty"`
+	Service    string         `json:"otlp_service_name,omitempty"`
+	DSHeader   bool           `json:"otlp_dataset_header,omitempty"`
 	Step       string         `json:"step,omitempty"`
 	Prefix     string         `json:"dataset_prefix"`
 	Targets    []string       `json:"sampler_targets"`
@@ -224,7 +229,7 @@ func TestVerif_C14(t *testing.T) {
 	run.Assume("b3Decide reproduces the selection of collect.(*CollectorWorker).makeDecision (Config.DetermineSamplerKey on the trace's key/environment/dataset, SamplerFactory.GetSamplerImplementationForKey)")
 	run.Assume("Payload.GetMemoizedFields right after ingestion shows what ingestion extracted (only asserted on the /1/batch paths, where nothing else is memoized)")
 
-	b := e3New(t, E3Options{})
+	b := e3New(t, E3Options{GRPC: true})
 	defer b.Close()
 	cap := &b3Capture{}
 	b.Collector.SetInner(cap)
@@ -234,10 +239,11 @@ func TestVerif_C14(t *testing.T) {
 
 	run.Cases("destination", run.N(300, 8000), func(ci int, rng *verifkit.Rand) {
 		prefix1 := verifkit.Pick(rng, c14Prefixes...)
-		apiKey, class := c14GenKey(rng)
+		apiKey, class0 := c14GenKey(rng)
 		dataset := verifkit.Pick(rng, c14DatasetNames...)
 		env := verifkit.Pick(rng, c14EnvNames...)
-		path := verifkit.Pick(rng, c14BatchMsgp, c14BatchMsgp, c14BatchJSON, c14EventJSON, c14EventMsgp, c14PeerBatch, c14OTLP)
+		path := verifkit.Pick(rng, c14BatchMsgp, c14BatchMsgp, c14BatchJSON, c14EventJSON, c14EventMsgp, c14PeerBatch, c14OTLP, c14OTLP, c14OTLPGRPC)
+		isOTLP := path == c14OTLP || path == c14OTLPGRPC
 
 		var cfg config.Config
 		// one phase = (re)configure, send the trace, decide, compare. step "" = freshly
@@ -245,6 +251,34 @@ func TestVerif_C14(t *testing.T) {
 		// fileConfig object (the one the routers hold) was told to Reload.
 		phase := func(prefix, step string) {
 			viol := func(sig, what string, witness any) { run.Violation(sig+step, what, witness) }
+			// key replacement (AccessKeys.SendKey / SendKeyMode): in 30 % of the phases the key the
+			// client sends is replaced, so the key the events CARRY — the one the selection is
+			// documented for — is the SendKey, of any shape class
+			class := class0
+			accessYAML, sendKey, sendMode := "", "", ""
+			if rng.Chance(0.3) {
+				// the loader only accepts well-formed Honeycomb keys as SendKey
+				var sc c14KeyClass
+				letter := string(c14Alnum[10+rng.Intn(26)])
+				switch rng.Intn(4) {
+				case 0:
+					sendKey, sc = rng.Hex(32), c14KeyClass{Name: "classic-config-key", Classic: true}
+				case 1:
+					sendKey, sc = "hc"+letter+"ic_"+c14Rand(rng, c14Alnum, 58), c14KeyClass{Name: "classic-ingest-key", Classic: true}
+				case 2:
+					sendKey, sc = c14Rand(rng, c14Alnum, 22), c14KeyClass{Name: "env-config-key"}
+				default:
+					sendKey, sc = "hc"+letter+"ik_"+c14Rand(rng, c14Alnum, 58), c14KeyClass{Name: "env-ingest-key"}
+				}
+				sendMode = verifkit.Pick(rng, "all", "nonblank", "unlisted", "listedonly")
+				listed := "some-other-key-" + rng.Hex(8)
+				if sendMode == "listedonly" {
+					listed = apiKey
+				}
+				accessYAML = "AccessKeys:\n  ReceiveKeys: " + b3YAMLList([]string{listed}) + "\n  SendKey: " + b3YAMLStr(sendKey) + "\n  SendKeyMode: " + sendMode + "\n"
+				class = sc
+				class.Name = "replaced-by-" + sc.Name
+			}
 			// ID field configuration: default names or custom ones; in 40 % of the phases the
 			// samplers also READ one of the configured ID fields
 			traceNames, parentNames := []string{"trace.trace_id", "traceId"}, []string{"trace.parent_id", "parentId"}
@@ -253,7 +287,7 @@ func TestVerif_C14(t *testing.T) {
 			}
 			useID := rng.Chance(0.4)
 			traceField, parentField := traceNames[0], parentNames[0]
-			if path == c14OTLP {
+			if isOTLP {
 				traceField, parentField = "trace.trace_id", "trace.parent_id"
 			}
 			// targets: the three names this request could resolve to are each present with p=1/2,
@@ -285,7 +319,7 @@ func TestVerif_C14(t *testing.T) {
 				s := c14Sampler{Target: tg, Idx: i, Tag: fmt.Sprintf("%d%s", i, rng.Hex(4)), Root: rng.Chance(0.4), Down: rng.Chance(0.5)}
 				if useID {
 					idf := verifkit.Pick(rng, traceNames[0], parentNames[0], parentNames[0])
-					if path == c14OTLP { // husky names
+					if isOTLP { // husky names
 						idf = verifkit.Pick(rng, "trace.trace_id", "trace.parent_id", "trace.parent_id")
 					}
 					switch {
@@ -304,7 +338,7 @@ func TestVerif_C14(t *testing.T) {
 				byTarget[tg] = s
 			}
 			rules := c14RulesYAML(samplers)
-			mainYAML := b3MainConfig(prefix, traceNames, parentNames)
+			mainYAML := b3MainConfig(prefix, traceNames, parentNames) + accessYAML
 			if step == "" {
 				var err error
 				cfg, err = b3LoadConfig(dir, mainYAML, rules)
@@ -357,6 +391,8 @@ func TestVerif_C14(t *testing.T) {
 			}
 
 			// the trace: the expected sampler(s)' fields always, decoy samplers' fields sometimes
+			service := "svc-" + verifkit.Pick(rng, c14DatasetNames...)
+			dsHeader := class0.Classic || class0.Open || rng.Chance(0.6) // a classic key must come with the header
 			nspans := rng.Range(1, 3)
 			if useID && nspans < 2 {
 				nspans = 2 // so that some span has a parent ID
@@ -366,7 +402,7 @@ func TestVerif_C14(t *testing.T) {
 			parentID := "par-" + rng.Hex(6)
 			// the values the ID fields hold (husky renders the OTLP byte IDs as hex)
 			traceVal, parentVal := traceID, parentID
-			if path == c14OTLP {
+			if isOTLP {
 				traceVal, parentVal = hex.EncodeToString([]byte(traceID[1:17])), "0909090909090909"
 			}
 			carried := map[int]bool{}
@@ -382,7 +418,7 @@ func TestVerif_C14(t *testing.T) {
 			var spanDesc []string
 			for i := 0; i < nspans; i++ {
 				kvs := []E3KV{KV("verif.id", VStr(fmt.Sprintf("s%d", i))), KV("noise", VInt(int64(rng.Intn(100))))}
-				if path != c14OTLP {
+				if !isOTLP {
 					kvs = append(kvs, KV(traceField, VStr(traceID)))
 					if i != rootAt {
 						kvs = append(kvs, KV(parentField, VStr(parentID)))
@@ -410,7 +446,7 @@ func TestVerif_C14(t *testing.T) {
 				spanDesc = append(spanDesc, strings.Join(names, ","))
 			}
 
-			w := c14Witness{Step: step, Prefix: prefix, Targets: targets, APIKey: apiKey, KeyClass: class.Name, Dataset: dataset, Env: env, Path: path.String(),
+			w := c14Witness{SendKey: sendKey, SendMode: sendMode, Step: step, Prefix: prefix, Targets: targets, APIKey: apiKey, KeyClass: class.Name, Dataset: dataset, Env: env, Path: path.String(),
 				Expected: expTargets, Rules: rules, Spans: spanDesc}
 			for _, s := range expSamplers {
 				w.ExpSampler = append(w.ExpSampler, s.Target)
@@ -474,7 +510,7 @@ func TestVerif_C14(t *testing.T) {
 						}
 					}
 				}
-			case c14OTLP:
+			case c14OTLP, c14OTLPGRPC:
 				var sps []E3Span
 				tid := []byte(traceID[1:17])
 				for i := range spanFields {
@@ -486,8 +522,25 @@ func TestVerif_C14(t *testing.T) {
 					sps = append(sps, s)
 				}
 				// husky: the dataset of a classic key is the x-honeycomb-dataset header; for
-				// other keys the service name
-				req, err := e3OTLPReq("/v1/traces", "application/protobuf", apiKey, dataset, e3OTLPTraces(dataset, sps))
+				// other keys the service name. The two differ here, and the header may be absent
+				// when the key the client sends is not classic.
+				w.Service, w.DSHeader = service, dsHeader
+				hdr := ""
+				if dsHeader {
+					hdr = dataset
+				}
+				msg := e3OTLPTraces(service, sps)
+				if path == c14OTLPGRPC {
+					md := map[string]string{"x-honeycomb-team": apiKey}
+					if dsHeader {
+						md["x-honeycomb-dataset"] = dataset
+					}
+					if res := b.GRPCTraces(md, msg); !res.OK() {
+						problem = fmt.Sprintf("otlp grpc: %v %s", res.Code, res.Msg)
+					}
+					break
+				}
+				req, err := e3OTLPReq("/v1/traces", verifkit.Pick(rng, "application/protobuf", "application/json"), apiKey, hdr, msg)
 				if err != nil {
 					problem = err.Error()
 					break
@@ -514,13 +567,24 @@ func TestVerif_C14(t *testing.T) {
 			for i, c := range got {
 				spans[i] = c.Span
 			}
-			if path == c14OTLP && class.Classic && spans[0].Dataset != dataset {
-				// husky chose another dataset name than the header: the documented selection is
-				// in terms of the dataset Refinery recorded
-				run.Count("otlp_dataset_differs_from_header", 1)
+			if sendKey != "" && spans[0].APIKey != sendKey {
+				// whether and how a key is replaced is C24's subject; without the replacement
+				// this phase has no carried key to reason about
+				run.Count("replacement_not_as_configured", 1)
 				return
 			}
-
+			if sendKey != "" {
+				run.Count("phases_with_replaced_key", 1)
+			}
+			if isOTLP && (class.Classic || class.Open) && !dsHeader {
+				// classic carried key without a dataset header: which dataset that is, is husky's business
+				run.Count("otlp_classic_carried_key_without_dataset_header", 1)
+				return
+			}
+			if isOTLP && class.Classic && spans[0].Dataset != dataset {
+				viol("C14/otlp/"+path.String()+"/"+class.Name+"/dataset-not-from-header",
+					fmt.Sprintf("the events carry the classic key %q and x-honeycomb-dataset %q, but were recorded for dataset %q (service.name %q)", spans[0].APIKey, dataset, spans[0].Dataset, service), w)
+			}
 			allowedIdx := map[int]c14Sampler{}
 			for _, s := range expSamplers {
 				allowedIdx[s.Idx] = s
